@@ -49,6 +49,14 @@ def skeleton(tag: str) -> Tuple[str, str, Dict[str, str]]:
         f'{pa}/s/__init__.py': f'"ID:{pa}.s"\nclass Ks:\n    "ID:Ks"\n',
         f'{pa}/s/d.py': f'"ID:{pa}.s.d"\nclass Kd:\n    "ID:Kd"\ndef fd(): "ID:fd"\n',
         f'{pa}/s/u.py': f'"ID:{pa}.s.u"\n',
+        # a sub-package whose __init__ binds a function under the name of the sub-module that defines it, and a name it merely imports;
+        # a module that sorts after every consumer and only imports what it offers
+        f'{pa}/w/__init__.py': f'"ID:{pa}.w"\nfrom .run import run\nfrom ..c import Kc as Frame\n',
+        f'{pa}/w/run.py': f'"ID:{pa}.w.run"\ndef run(): "ID:run"\ndef other(): "ID:other"\n',
+        f'{pa}/zlate.py': f'"ID:{pa}.zlate"\nfrom .c import Kc as Late0\nfrom .w import run as late_run\n',
+        # a third root whose name extends the first root's name; it re-exports (moves) a class that consumers import from where it is defined
+        f'{pa}2/__init__.py': f'"ID:{pa}2"\nfrom .core import Eng\n__all__ = ["Eng"]\n',
+        f'{pa}2/core.py': f'"ID:{pa}2.core"\nclass Eng:\n    "ID:Eng"\n    class Part:\n        "ID:Eng.Part"\ndef stays(): "ID:stays"\n',
         f'{qa}/__init__.py': f'"ID:{qa}"\n',
         f'{qa}/e.py': f'"ID:{qa}.e"\nclass Ke:\n    "ID:Ke"\n',
         f'{qa}/v.py': f'"ID:{qa}.v"\n',
@@ -75,6 +83,11 @@ def statements(pa: str, qa: str) -> List[str]:
         f'from {pa}.c import Kc\nfrom {pa}.b import fb as mc\nclass Sub0(Kc):\n    "ID:Sub0"', f'from {pa}.c import Right0\nfrom {pa}.b import Kb as render\nclass Sub1(Right0):\n    "ID:Sub1"',
         # a name bound by an import that is also the name of a sub-module / sub-package of the scope's package
         f'from {pa}.c import fc as b', f'from {pa}.c import Kc as s', f'from {pa}.c import fc as d',     # (a LATER import of that sub-module re-binds the name in CPython: not generated, the order of import events is dynamic)
+        # through a package that re-binds the name of its own sub-module, and through modules analysed after the consumer
+        f'from {pa}.w import run', f'from {pa}.w import run as run0, Frame as Fr0', f'from {pa} import w as w0\nZ6 = w0.run', f'from {pa} import w as w1\nZ7 = w1.Frame',
+        f'import {pa}.w\nZ8 = {pa}.w.run', f'from {pa} import zlate as zl\nZ9 = zl.Late0\nZ10 = zl.late_run', f'import {pa}.w.run as wr0\nZ11 = wr0.other', 'from . import w as w2\nZ12 = w2.run',
+        # an object its package re-exports (moves), named by where it is defined: found through the alias the move leaves behind (System.find_object)
+        f'from {pa}2.core import Eng', f'from {pa}2.core import Eng as E2, stays', f'import {pa}2.core as xc0\nZ13 = xc0.Eng', f'from {pa}2 import Eng as E3', f'import {pa}2\nZ14 = {pa}2.core.Eng',
         f'from {pa}.emp import *', f'from {pa}.c import Widget0, Page0 as P0', f'import {pa}.c as dm', f'from {pa}.c import Widget0\nclass Mine(Widget0):\n    "ID:Mine"',
     ]
 
@@ -133,7 +146,7 @@ def run_case(tag: str, scope_idx: int, stmt_idx: Sequence[int], res: Dict[str, A
                 core.bump(res, 'filtered_cpython_cannot_import')
                 return
             # each name bound once per scope
-            s = pd.build_files(d, [pa, qa])
+            s = pd.build_files(d, [pa, pa + '2', qa])
             res['evals'] += 1
             scope_py: Any = um
             for p in (scope_path.split('.') if scope_path else []):
@@ -151,6 +164,12 @@ def run_case(tag: str, scope_idx: int, stmt_idx: Sequence[int], res: Dict[str, A
                     return
                 checked += 1
                 r = scope_pd.resolveName(path)
+                if r is None:
+                    # the name may be recorded under the place the object was defined at before a re-export moved it
+                    try:
+                        r = s.find_object(scope_pd.expandName(path))
+                    except LookupError:
+                        r = None
                 if r is not None:
                     got = r.docstring
                     if got != idp:
@@ -269,7 +288,7 @@ def run_case(tag: str, scope_idx: int, stmt_idx: Sequence[int], res: Dict[str, A
             core.bump(res, 'paths_checked', checked)
         finally:
             sys.path.remove(str(d))
-            for k in [k for k in sys.modules if k.split('.')[0] in (pa, qa)]:
+            for k in [k for k in sys.modules if k.split('.')[0] in (pa, pa + '2', qa)]:
                 del sys.modules[k]
             importlib.invalidate_caches()
 
